@@ -1,6 +1,8 @@
 package rules
 
 import (
+	"go/token"
+	"strings"
 	"golang.org/x/tools/go/ssa"
 
 	"kverif/internal/an"
@@ -98,5 +100,124 @@ func c16round(c *Ctx, pkg string) {
 		}
 		ok := !hitDeny && !escaped && (s.want == nil || hitWant)
 		r.Check(ok, "ROUND", key+"/"+s.name, c.InstrPos(filt), "holds", sprintf("for a job whose filtering returned (isFailed=%v, isPassed=%v): the wanted update is reached=%v, can be bypassed=%v, the other update is reachable=%v", s.f, s.p, hitWant, escaped, hitDeny))
+	}
+}
+
+// c16accounting: the limiter charges what it checks; the per-workload filter survives when only one of its gates is skipped.
+func c16accounting(c *Ctx, pkg string) {
+	r := c.R
+	r.Decides("EvictionLimiter.Done charges the namespace counter and the total on every call and the node counter whenever the pod has a node - the same conditions under which AllowEvict checks them; the per-workload limit filter is registered unless BOTH of its gates are skipped")
+	r.Rule("MIRROR(allow/done): in EvictionLimiter.Done the writes to namespacePodCount and totalCount are reached on every path, the write to nodePodCount on every path with pod.Spec.NodeName != \"\" (AllowEvict checks namespace and total for every pod and the node cap for pods with a node: a counter that is checked but not charged makes the cap free)")
+	if fn := c.Fn(evictionsPkg, "EvictionLimiter", "Done"); fn != nil {
+		writesTo := func(field string) func(ssa.Instruction) bool {
+			return func(in ssa.Instruction) bool {
+				switch x := in.(type) {
+				case *ssa.MapUpdate:
+					return strings.HasSuffix(an.Path(x.Map), "."+field)
+				case *ssa.Store:
+					_, f, _, ok := an.FieldOf(x.Addr)
+					return ok && f == field
+				}
+				return false
+			}
+		}
+		nodeFacts := an.Facts{}
+		for _, b := range fn.Blocks {
+			for _, in := range b.Instrs {
+				if bo, ok := in.(*ssa.BinOp); ok {
+					if s, isC := constString(bo.Y); isC && s == "" && (strings.HasSuffix(an.Path(bo.X), ".Spec.NodeName") || strings.HasSuffix(an.Path(firstSource(bo.X)), ".Spec.NodeName")) {
+						if bo.Op == token.NEQ {
+							nodeFacts[bo] = an.True
+						} else if bo.Op == token.EQL {
+							nodeFacts[bo] = an.False
+						}
+					}
+				}
+			}
+		}
+		for _, t := range []struct {
+			field string
+			facts an.Facts
+			when  string
+		}{{"namespacePodCount", nil, "every pod"}, {"totalCount", nil, "every pod"}, {"nodePodCount", nodeFacts, "every pod with a node"}} {
+			reach := an.Explore(fn, nil, t.facts, writesTo(t.field))
+			ok := len(reach.Returns()) == 0 && (t.facts == nil || len(t.facts) > 0)
+			r.Check(ok, "MIRROR", fkey(fn)+"/charges/"+t.field, c.Pos(fn.Pos()), "charged for "+t.when, "EvictionLimiter.Done can return without charging "+t.field+" for "+t.when+": AllowEvict keeps checking a counter that is not counted up, so the cap never bites and the reported count is short")
+		}
+	}
+
+	r.Rule("PATH(workload gates): in filter.initFilters the append of filterMaxMigratingOrUnavailablePerWorkload is reached when isEvictionGateSkipped(MaxMigratingPerWorkload) is true but isEvictionGateSkipped(MaxUnavailablePerWorkload) is false, and the other way round (the filter enforces both budgets and checks each gate itself)")
+	if fn := c.Fn(pkg, "filter", "initFilters"); fn != nil {
+		gate := map[string][]*ssa.Call{}
+		for _, cl := range an.Calls(fn, false) {
+			call, ok := cl.(*ssa.Call)
+			if !ok || an.ShortCallee(&call.Call) != "isEvictionGateSkipped" {
+				continue
+			}
+			if s, isC := constString(call.Call.Args[1]); isC {
+				gate[s] = append(gate[s], call)
+			}
+		}
+		var mig, unav []*ssa.Call
+		for k, v := range gate {
+			switch {
+			case strings.Contains(k, "MaxMigratingPerWorkload"):
+				mig = v
+			case strings.Contains(k, "MaxUnavailablePerWorkload"):
+				unav = v
+			}
+		}
+		isAppend := func(in ssa.Instruction) bool {
+			cl, ok := in.(*ssa.Call)
+			if !ok || !an.IsBuiltinCall(cl, "append") {
+				return false
+			}
+			var cands []ssa.Value
+			for _, e := range variadicElems(cl.Call.Args[len(cl.Call.Args)-1]) {
+				for x := range backwardAll(e) {
+					cands = append(cands, x)
+				}
+			}
+			for _, x := range cands {
+				if mc, isMC := x.(*ssa.MakeClosure); isMC {
+					if f, isF := mc.Fn.(*ssa.Function); isF && strings.Contains(f.Name(), "filterMaxMigratingOrUnavailablePerWorkload") {
+						return true
+					}
+				}
+				if f, isF := x.(*ssa.Function); isF && strings.Contains(f.Name(), "filterMaxMigratingOrUnavailablePerWorkload") {
+					return true
+				}
+			}
+			return false
+		}
+		okAll := len(mig) > 0 && len(unav) > 0
+		for _, sc := range [][2]an.Abs{{an.True, an.False}, {an.False, an.True}} {
+			f := an.Facts{}
+			for _, g := range mig {
+				f[g] = sc[0]
+			}
+			for _, g := range unav {
+				f[g] = sc[1]
+			}
+			// from the first of the two gate tests on
+			first := mig[0]
+			if instrBefore(unav[0], mig[0]) {
+				first = unav[0]
+			}
+			start := &an.Start{Block: first.Block(), Index: instrIndex(first)}
+			hit := false
+			an.Explore(fn, start, f, func(in ssa.Instruction) bool {
+				if isAppend(in) {
+					hit = true
+				}
+				return false
+			})
+			// reached on every path: with the append as barrier no return is reachable
+			reach := an.Explore(fn, start, f, isAppend)
+			if !hit || len(reach.Returns()) > 0 {
+				okAll = false
+			}
+		}
+		r.Check(okAll, "PATH", fkey(fn)+"/workload-filter-unless-both-skipped", c.Pos(fn.Pos()), "registered unless both workload gates are skipped", sprintf("the per-workload filter is dropped as soon as one of its two gates is skipped (gate calls found: migrating=%d unavailable=%d): the other workload budget is no longer enforced", len(mig), len(unav)))
 	}
 }
